@@ -9,7 +9,7 @@
    (`IntegerMarshaller = CastMarshaller[int]`: instances are CastMarshallers). *)
 From Coq Require Import List NArith ZArith String Ascii Bool.
 Import ListNotations.
-Require Import TL.Model.Inspect.
+Require Import TL.Model.Inspect TL.Model.InspectSpec.
 Local Open Scope string_scope.
 
 Inductive hpred := PName (n : string) | PAnd (p q : hpred).
@@ -209,7 +209,7 @@ Definition kind_of (t : ity) : option kind :=
   match t with
   | IClass c => Some (class_kind c)
   | INone => Some KNone
-  | ITyping a => if N.eqb a ta_Callable then Some KNoOp else Some (class_kind (ta_origin T a))
+  | ITyping a => Some (class_kind (ta_origin T a))
   | ITypingSub a l => Some (sub_kind (ta_origin T a) l)
   | IClassSub c l | IUserSub c l => Some (sub_kind c l)
   | IUnion _ _ => Some KUnion
@@ -219,3 +219,196 @@ Definition kind_of (t : ity) : option kind :=
   | _ => None
   end.
 End Spec.
+
+(* ------------------------------------------------------------------ canonical representatives *)
+(* The dispatch of a parameterised annotation depends on its parameters only through: are there any,
+   and is the last one (after type variables are normalised) the Ellipsis.  [canon] maps every
+   annotation to a representative with the same head and the same two facts; over a finite class
+   universe the representatives are finitely many ([reps]), so a statement about ALL annotations
+   reduces to a computation on the reflected tables ([all_reps_ok]). *)
+Definition canon_args (l : list ity) : list ity :=
+  match map normalize_typevar l with
+  | [] => []
+  | x :: r => if last_is_ellipsis (x :: r) then [IEllipsis] else [INone]
+  end.
+Definition canon (t : ity) : ity :=
+  match t with
+  | ITypingSub a l => ITypingSub a (canon_args l)
+  | IClassSub c l => IClassSub c (canon_args l)
+  | IUserSub c l => IUserSub c (canon_args l)
+  | IUnion sp _ => IUnion sp []
+  | ILiteral _ => ILiteral []
+  | IForwardRef _ _ => IForwardRef "" None
+  | ICallable b _ _ => ICallable b None INone
+  | _ => t
+  end.
+
+(* predicates whose answer on t is the answer on canon t (proved: DispatchLemmas.canon_sound) *)
+Definition is_family (p : pred) : bool :=
+  match origin_family_bases p, origin_family_tp p, raw_family_bases p with
+  | None, None, None =>
+      match p with
+      | P_istupletype | P_issequencetype | P_iscollectiontype | P_ismappingtype => true
+      | _ => false
+      end
+  | _, _, _ => true
+  end.
+Definition head_only (p : pred) : bool :=
+  is_family p ||
+  match p with
+  | P_isforwardref | P_isunresolvable | P_isnonetype | P_isliteral | P_isuniontype | P_isfinal
+  | P_isclassvartype | P_istypeddict | P_istypedtuple | P_isnamedtuple | P_istypealiastype
+  | P_isfromdictclass | P_isfrozendataclass => true
+  | _ => false
+  end.
+Definition vocab (t : ity) (p : pred) : bool :=
+  match t with
+  | ITypingSub _ _ | IClassSub _ _ | IUserSub _ _ =>
+      head_only p || match p with P_isfixedtupletype | P_issubscriptedgeneric => true | _ => false end
+  | IUnion _ _ | ILiteral _ => head_only p
+  | IForwardRef _ _ =>
+      match p with P_isforwardref | P_isnonetype | P_isclassvartype | P_isfinal | P_istypealiastype => true | _ => false end
+  | ICallable _ _ _ =>
+      match p with
+      | P_isforwardref | P_isnonetype | P_isunresolvable | P_isclassvartype | P_isfinal | P_istypealiastype => true
+      | _ => false
+      end
+  | _ => true
+  end.
+
+Fixpoint hpred_in (v : pred -> bool) (h : hpred) : bool :=
+  match h with
+  | PName n => match pred_of_name n with Some p => v p | None => false end
+  | PAnd p q => hpred_in v p && hpred_in v q
+  end.
+
+Section Guarded.
+Variable T : tables.
+(* first_match that gives up (DUnknown) when it would have to evaluate a key outside v *)
+Fixpoint gmatch (v : pred -> bool) (hs : handlers) (fb : rclass) (u : ity) : dres rclass :=
+  match hs with
+  | [] => DOk fb
+  | (h, c) :: r =>
+      if hpred_in v h then
+        match eval_hpred T h u with
+        | DOk true => DOk c
+        | DOk false => gmatch v r fb u
+        | DRaise e => DRaise e
+        | DUnknown n => DUnknown n
+        end
+      else DUnknown "outside the head-only vocabulary"
+  end.
+
+(* the tables mention only atoms where the proofs need it: no parameterised form is a key of
+   GENERIC_TYPE_MAP or a member of _UNRESOLVABLE *)
+Definition is_atom (t : ity) : bool :=
+  match t with IClass _ | INone | IEllipsis | ISpecial _ | ITyping _ => true | _ => false end.
+Definition atoms_ok : bool :=
+  forallb is_atom (t_unresolvable T) && forallb (fun kv => is_atom (fst kv)) (t_generic_map T).
+
+Definition arg_reps : list (list ity) := [[]; [IEllipsis]; [INone]].
+Definition reps : list ity :=
+  [INone; IForwardRef "" None; ILiteral []; ICallable true None INone; ICallable false None INone;
+   IUnion UUnion []; IUnion UOptional []; IUnion UPipe []]
+  ++ flat_map (fun ci => IClass (fst ci)
+                 :: flat_map (fun a => [IClassSub (fst ci) a; IUserSub (fst ci) a]) arg_reps) (t_cls T)
+  ++ flat_map (fun al => ITyping (fst al) :: map (ITypingSub (fst al)) arg_reps) (t_talias T).
+End Guarded.
+
+Definition dres_eqb (a : dres string) (b : string) : bool :=
+  match a with DOk s => String.eqb s b | _ => false end.
+
+(* ------------------------------------------------------------------ both tables of one run, and the finite check *)
+Record dtables := {
+  d_tbl : tables;
+  d_unm : handlers; d_unm_fb : rclass;
+  d_mar : handlers; d_mar_fb : rclass;
+  d_impl : list (string * string)
+}.
+
+Section Check.
+Variable D : dtables.
+
+(* class of the instance the first match builds, both directions *)
+Definition first_u (u : ity) : dres string := impl_res (d_impl D) (first_match (d_tbl D) (d_unm D) (d_unm_fb D) u).
+Definition first_m (u : ity) : dres string := impl_res (d_impl D) (first_match (d_tbl D) (d_mar D) (d_mar_fb D) u).
+Definition disp_u (t : ity) : dres string := impl_res (d_impl D) (dispatch (d_tbl D) (d_unm D) (d_unm_fb D) t).
+Definition disp_m (t : ity) : dres string := impl_res (d_impl D) (dispatch (d_tbl D) (d_mar D) (d_mar_fb D) t).
+Definition gm_u (u : ity) : dres string :=
+  impl_res (d_impl D) (gmatch (d_tbl D) (vocab u) (d_unm D) (d_unm_fb D) u).
+Definition gm_m (u : ity) : dres string :=
+  impl_res (d_impl D) (gmatch (d_tbl D) (vocab u) (d_mar D) (d_mar_fb D) u).
+
+(* Guards on the head class (each shown necessary by a refutation in dyn/Dispatch/Dispatch.v):
+   - the class is in the reflected lattice;
+   - a numbers.Number that is none of int / float / Decimal / Fraction (complex, the abstract tower) has a
+     number routine on one side and the structured fallback on the other;
+   - the class types.UnionType itself is taken for a union;
+   - GENERIC_TYPE_MAP sends the class to one of another container kind (Hashable -> str: an iterable). *)
+Definition map_neutral (c : cls) : bool :=
+  let T := d_tbl D in let d := doc_map T c in
+  Bool.eqb (mapping_like T d) (mapping_like T c)
+  && Bool.eqb (subclass T d c_Iterator) (subclass T c c_Iterator)
+  && Bool.eqb (subclass T d c_Iterable) (subclass T c c_Iterable)
+  && Bool.eqb (subclass T d c_tuple) (subclass T c c_tuple).
+Definition cls_guard (c : cls) : bool :=
+  let T := d_tbl D in
+  match cinfo T c with Some _ => true | None => false end
+  && (negb (subclass T c c_Number) || match scalar_kind T c with Some _ => true | None => false end)
+  && negb (N.eqb (doc_map T c) c_UnionType)
+  && map_neutral c.
+Definition alias_known (a : N) : bool :=
+  match assocN a (t_talias (d_tbl D)) with Some _ => true | None => false end.
+
+(* the supported heads (an UNWRAPPED annotation: what node.unwrapped is) *)
+Definition supported_head (u : ity) : bool :=
+  match u with
+  | IClass c | IClassSub c _ | IUserSub c _ => cls_guard c
+  | ITyping a | ITypingSub a _ => alias_known a && cls_guard (ta_origin (d_tbl D) a)
+  | INone | IUnion _ _ | ILiteral _ | IForwardRef _ _ | ICallable _ _ _ => true
+  | _ => false
+  end.
+
+Definition rep_ok (u : ity) : bool :=
+  implb (supported_head u)
+    (match kind_of (d_tbl D) u with
+     | Some k => dres_eqb (gm_u u) (expected_u k) && dres_eqb (gm_m u) (expected_m k)
+     | None => false
+     end
+     && negb (isfinal (d_tbl D) u) && negb (isclassvartype u)).
+Definition all_reps_ok : bool := forallb rep_ok (reps (d_tbl D)).
+End Check.
+
+(* ------------------------------------------------------------------ row surgery (order-sensitivity witnesses) *)
+Fixpoint hpred_eqb (a b : hpred) : bool :=
+  match a, b with
+  | PName x, PName y => String.eqb x y
+  | PAnd p q, PAnd p' q' => hpred_eqb p p' && hpred_eqb q q'
+  | _, _ => false
+  end.
+Fixpoint take_row (k : hpred) (hs : handlers) : option ((hpred * rclass) * handlers) :=
+  match hs with
+  | [] => None
+  | (h, c) :: r =>
+      if hpred_eqb h k then Some ((h, c), r)
+      else match take_row k r with Some (x, r') => Some (x, (h, c) :: r') | None => None end
+  end.
+Fixpoint insert_before (k : hpred) (x : hpred * rclass) (hs : handlers) : handlers :=
+  match hs with
+  | [] => [x]
+  | (h, c) :: r => if hpred_eqb h k then x :: (h, c) :: r else (h, c) :: insert_before k x r
+  end.
+Fixpoint insert_after (k : hpred) (x : hpred * rclass) (hs : handlers) : handlers :=
+  match hs with
+  | [] => [x]
+  | (h, c) :: r => if hpred_eqb h k then (h, c) :: x :: r else (h, c) :: insert_after k x r
+  end.
+(* the table with the row keyed [a] moved immediately before / after the row keyed [b] *)
+Definition move_before (a b : hpred) (hs : handlers) : handlers :=
+  match take_row a hs with Some (x, r) => insert_before b x r | None => hs end.
+Definition move_after (a b : hpred) (hs : handlers) : handlers :=
+  match take_row a hs with Some (x, r) => insert_after b x r | None => hs end.
+Definition with_unm (D : dtables) (hs : handlers) : dtables :=
+  Build_dtables (d_tbl D) hs (d_unm_fb D) (d_mar D) (d_mar_fb D) (d_impl D).
+Definition with_mar (D : dtables) (hs : handlers) : dtables :=
+  Build_dtables (d_tbl D) (d_unm D) (d_unm_fb D) hs (d_mar_fb D) (d_impl D).
